@@ -156,7 +156,15 @@ func (s *storageDeferredCreation) createStorageAndDoInTx(ctx context.Context, pr
 	if err != nil {
 		return fmt.Errorf("write tx: %w", err)
 	}
-	defer tx.Rollback()
+	committed := false
+	defer func() {
+		if !committed {
+			// the storage was created inside the transaction that is being rolled back,
+			// so it doesn't exist: the next call has to create it again
+			s.storage = nil
+			tx.Rollback()
+		}
+	}()
 
 	err = s.createStorage(tx.Context())
 	if err != nil {
@@ -167,7 +175,12 @@ func (s *storageDeferredCreation) createStorageAndDoInTx(ctx context.Context, pr
 	if err != nil {
 		return fmt.Errorf("add all: %w", err)
 	}
-	return tx.Commit()
+	err = tx.Commit()
+	if err != nil {
+		return err
+	}
+	committed = true
+	return nil
 }
 
 func (s *storageDeferredCreation) AddAll(ctx context.Context, changes []StorageChange, heads []string, commonSnapshot string) error {
